@@ -12,8 +12,10 @@ import (
 	"crypto"
 	"crypto/rand"
 	_ "crypto/sha256"
+	"encoding/asn1"
 	"encoding/json"
 	"fmt"
+	"github.com/cloudflare/circl/pki"
 	"os"
 	"time"
 
@@ -249,6 +251,62 @@ func groupFam(g group.Group, name string) famDef {
 	}}
 }
 
+// registryFam: package-level lookup tables (scheme by name / OID / TLS id, suites by
+// identifier), first used by several tasks at once. Under the race engine every run is a
+// fresh process, so each run sees the tables cold.
+func registryFam() famDef {
+	var signNames, kemNames []string
+	for _, s := range signschemes.All() {
+		signNames = append(signNames, s.Name())
+	}
+	for _, s := range kemschemes.All() {
+		kemNames = append(kemNames, s.Name())
+	}
+	return famDef{name: "registry", kinds: []string{"sign.byname", "kem.byname", "pki.bytls", "oprf.suite", "sign.byname"}, build: func(seed uint64) *shared {
+		return &shared{ops: map[string]func(uint64) []byte{
+			"sign.byname": func(a uint64) []byte {
+				n := signNames[(a+seed)%uint64(len(signNames))]
+				s := signschemes.ByName(n)
+				if s == nil {
+					return []byte("nil:" + n)
+				}
+				return []byte(s.Name())
+			},
+			"kem.byname": func(a uint64) []byte {
+				n := kemNames[(a+seed)%uint64(len(kemNames))]
+				s := kemschemes.ByName(n)
+				if s == nil {
+					return []byte("nil:" + n)
+				}
+				return []byte(s.Name())
+			},
+			"pki.bytls": func(a uint64) []byte {
+				for _, s := range signschemes.All() {
+					if t, ok := s.(interface{ TLSIdentifier() uint }); ok {
+						if got := pki.SchemeByTLSID(t.TLSIdentifier()); got == nil || got.Name() != s.Name() {
+							return []byte("mismatch:" + s.Name())
+						}
+					}
+					if o, ok := s.(interface{ Oid() asn1.ObjectIdentifier }); ok {
+						if got := pki.SchemeByOid(o.Oid()); got == nil || got.Name() != s.Name() {
+							return []byte("mismatch-oid:" + s.Name())
+						}
+					}
+				}
+				return []byte("ok")
+			},
+			"oprf.suite": func(a uint64) []byte {
+				id := []string{"ristretto255-SHA512", "P256-SHA256", "P384-SHA384", "P521-SHA512"}[a%4]
+				su, err := oprf.GetSuite(id)
+				if err != nil {
+					return []byte("err:" + id)
+				}
+				return []byte(su.Identifier())
+			},
+		}}
+	}}
+}
+
 func prioFam() famDef {
 	return famDef{name: "prio3/count", kinds: []string{"shard", "shard", "params"}, build: func(seed uint64) *shared {
 		c, err := count.New(2, []byte("ctx"))
@@ -296,16 +354,23 @@ func init() {
 		reg(oprfFam(su), 8)
 	}
 	reg(tssFam(), 10)
+	// the scheme tables are walked with All(): the by-name lookups themselves are first used
+	// inside the scheduled tasks of the registry family, in a process that has not used them yet
 	for _, n := range []string{"ML-KEM-768", "Kyber768", "X25519MLKEM768", "Kyber768-X25519", "P256Kyber768Draft00", "X-Wing", "ML-KEM-512"} {
-		if s := kemschemes.ByName(n); s != nil {
-			reg(kemFam(s), 4)
+		for _, s := range kemschemes.All() {
+			if s.Name() == n {
+				reg(kemFam(s), 4)
+			}
 		}
 	}
 	for _, n := range []string{"Ed25519", "Ed448", "ML-DSA-65", "Dilithium3", "Ed25519-Dilithium2"} {
-		if s := signschemes.ByName(n); s != nil {
-			reg(signFam(s), 4)
+		for _, s := range signschemes.All() {
+			if s.Name() == n {
+				reg(signFam(s), 4)
+			}
 		}
 	}
+	reg(registryFam(), 6)
 	reg(groupFam(group.P256, "P256"), 6)
 	reg(groupFam(group.Ristretto255, "ristretto255"), 4)
 	// a Prio3 instance keeps a mutable XOF state and is owned by one party: it is neither a
